@@ -1,5 +1,6 @@
 """C14 — Bycycle objects reproduce the functional API and hold no stale state.  Model/Objects.v."""
 import copy
+import math
 import random as _random
 import numpy as np
 from harness import coqio, gen, pipeline
@@ -9,11 +10,14 @@ PROP = 'C14'
 PROPS_FILE = 'Props/C14.v'
 _HEADER = ('From Coq Require Import List ZArith NArith String. Import ListNotations.\n'
            'From ByC Require Import Base.Result Harness.Compare Model.Objects.\nOpen Scope string_scope.')
+_HEADER_F = ('From Coq Require Import List ZArith NArith String Floats.PrimFloat. Import ListNotations.\n'
+             'From ByC Require Import Base.Result Harness.Compare Model.Objects.\nOpen Scope string_scope.')
 COQ_STREAMS = {
     'object': (_HEADER, 'bad_history', ('cargs * list op', 'result obs'), 100),
     'group': (_HEADER, 'bad_group_history', ('cargs * list gop', 'result gobs'), 100),
+    'reduce': (_HEADER_F, 'bad_reduce', ('bool * option fdict * list (option float)', 'result (list fdict)'), 100),
 }
-COQ_RUNNER = 'bad_history / bad_group_history'
+COQ_RUNNER = 'bad_history / bad_group_history / bad_reduce'
 RULE = ('(a) random histories (length <= 8 quick, <= 20 thorough) of fit / recompute_edges(None | 0 | r) / load / threshold item edit / '
         'burst-option item edit / attribute assignments (center_extrema, thresholds = {...}, burst_method together with its '
         'dictionaries, find_extrema_kwargs, return_samples) on one real Bycycle object, both burst methods; constructor called '
@@ -29,9 +33,26 @@ RULE = ('(a) random histories (length <= 8 quick, <= 20 thorough) of fit / recom
         '= df_features[i] and models[i].sig = sigs[i] by value for every position (and equal counts); after a fit comparison '
         'with a fresh group; after recompute_edges comparison with the functional recomputation of every table; object identity '
         'of the mirrored tables and the settings held by the models go into the model comparison only. '
-        'non-trivial = an object history with >= 2 fits and >= 1 edit in between, or a group history with a re-fit or a recomputation')
+        '(c) decision boundaries of recompute_edges(r): thresholds, edits and reductions are decimal literals from the grid '
+        '{0, .05, ..., 1} (so that the lowered threshold v - r carries binary64 residue in either direction), dictionaries are '
+        'given with a shuffled insertion order; tables whose feature values sit EXACTLY on and one ulp around the lowered '
+        'threshold computed by plain binary64 subtraction and around the decimal literal of the nominal difference: synthetic '
+        'cycle tables brought in with load (integer periods / flank voltages, so that the one-sided consistencies written '
+        'into edge cycles are decimal fractions too) and real ramp signals with 10 / 20 / 40 cycles of pairwise different '
+        'amplitude (amp_fraction = rank / n on the grid), for objects (boundary/...) and groups (group-boundary/...); the '
+        'oracle stays: object recomputation = functional recompute_edges with {k: v - r}; the input distribution says for how '
+        'many histories a feature sat on a lowered threshold / the labels depended on the last bits of it. '
+        '(d) the public method reduce_thresholds(r) of fresh objects / groups (grid decimals, random binary64 numbers, ints, '
+        'thresholds=None, r=None) is compared key by key and bit by bit with the binary64 difference v - r in the model '
+        'comparison only (third Coq stream, no oracle verdict). '
+        '(e) refit/...: fit, one strong threshold edit by item assignment, fit of the same recording again (1-3 times). '
+        'non-trivial = an object history with >= 2 fits and >= 1 edit in between, or a group history with a re-fit or a '
+        'recomputation, or a reduce case with a non-zero reduction')
 ASSUMPTIONS = ['recompute_edges is only applied to consistency-method objects holding a table produced by consistency burst '
-               'detection (the method is documented for them only); for groups therefore only after axis=0 (2-D) / axis=(0,1) (3-D) fits',
+               'detection (the method is documented for them only) or a synthetic table of that form brought in with load; for '
+               'groups therefore only after axis=0 (2-D) / axis=(0,1) (3-D) fits',
+               '"every *_threshold lowered by r" is read as the binary64 difference v - r of the stored threshold and the reduction '
+               '(what a caller of the functional API computes); +0 and -0 are not told apart in the reduce_thresholds stream',
                'attribute assignments replace a dictionary by one with long key names (shorthand is a constructor feature); a change '
                'of burst_method is followed immediately by matching thresholds / burst_kwargs',
                'group edits are item assignments on the group\'s dictionaries (shared with the models); replacing a dictionary object '
@@ -47,20 +68,55 @@ AMP_DEF = {'burst_fraction_threshold': 1000, 'min_n_cycles': 3}
 SIGS = {}
 
 
+GRID = list(range(0, 1001, 50))              # the decimal grid {0, .05, .1, ..., 1} in thousandths
+N_PLAIN, N_RAMP = 4, 8                       # signal ids 0..3: generated signals; 4..11: ramp signals (see _ramp)
+RAMP_FS_P = [(100, 10), (200, 25), (250, 20), (500, 50)]
+RAMP_CYCLES = [10, 20, 20, 40]
+N_ENV = 6
+
+
+def _ramp(seed, k, env=None):
+    """A clean rhythm of period P samples whose envelope takes pairwise different values at the cycles, of length
+    P * (n + 1) + P // 2: the cycle table then has n = 10 / 20 / 40 rows for both centrings with the default extrema
+    options (checked when this generator was written; the evidence lists how often a feature really sat on a lowered
+    threshold), so that amp_fraction = rank / n takes every value of the decimal grid k/10, k/20 exactly."""
+    fs, P = RAMP_FS_P[(seed + k) % len(RAMP_FS_P)]
+    n = RAMP_CYCLES[k % len(RAMP_CYCLES)]
+    L = P * (n + 1) + P // 2
+    t = np.arange(L)
+    u = t / L
+    e = ((seed // 7 + k) if env is None else env) % N_ENV
+    envs = [1 + 2.0 * u, 3 - 2.0 * u, 1 + 2 * np.abs(u - 0.37), 1 + ((u * 3.3) % 1.0) + 0.1 * u, 1 + 1.3 * u, 2.5 - 1.2 * u]
+    f0 = fs / P
+    return envs[e] * np.sin(2 * np.pi * t / P), fs, (0.8 * f0, 1.2 * f0)
+
+
 def _sig(seed, k):
     if (seed, k) not in SIGS:
-        s = gen.signal(_random.Random(seed * 16 + k), kind=['sparse', 'bursty', 'sum', 'sine'][k % 4], max_len=420)
-        SIGS[(seed, k)] = (s['sig'], s['fs'], tuple(s['f_range']))
+        if k >= N_PLAIN:
+            SIGS[(seed, k)] = _ramp(seed, k)
+        else:
+            s = gen.signal(_random.Random(seed * 16 + k), kind=['sparse', 'bursty', 'sum', 'sine'][k % 4], max_len=420)
+            SIGS[(seed, k)] = (s['sig'], s['fs'], tuple(s['f_range']))
     return SIGS[(seed, k)]
 
 
+N_ARR_PLAIN, N_ARR_RAMP = 3, 2               # array ids 0..2: rows derived from a generated signal; 3, 4: ramp rows
+
+
 def _arr(seed, k, n0, n1):
-    """n0 (x n1) distinct rows derived from one generated signal (2-D when n1 is None)."""
+    """n0 (x n1) distinct rows (2-D when n1 is None): derived from one generated signal, or (k >= 3) ramp signals of one
+    length and rhythm with pairwise different envelopes (at most 6 positions are ever asked for)."""
     key = (seed, k, n0, n1)
     if key not in SIGS:
-        base, fs, fr = _sig(seed, k)
-        nrng = np.random.default_rng(seed * 16 + k)
-        rows = [np.roll(base, 11 * p) * (1 + 0.1 * p) + 0.01 * nrng.standard_normal(len(base)) for p in range(n0 * (n1 or 1))]
+        if k >= N_ARR_PLAIN:
+            kk = N_PLAIN + (k - N_ARR_PLAIN)          # 10 or 20 cycles
+            rows = [_ramp(seed, kk, env=p)[0] for p in range(n0 * (n1 or 1))]
+            _, fs, fr = _ramp(seed, kk)
+        else:
+            base, fs, fr = _sig(seed, k)
+            nrng = np.random.default_rng(seed * 16 + k)
+            rows = [np.roll(base, 11 * p) * (1 + 0.1 * p) + 0.01 * nrng.standard_normal(len(base)) for p in range(n0 * (n1 or 1))]
         a = np.array(rows)
         SIGS[key] = (a if n1 is None else a.reshape(n0, n1, -1), fs, fr)
     return SIGS[key]
@@ -68,6 +124,18 @@ def _arr(seed, k, n0, n1):
 
 # ---------------------------------------------------------------------------------------------------
 # generators
+
+def _shuffled(rng, d):
+    """The same dictionary with its insertion order drawn from rng (a user does not write keys in any canonical order)."""
+    items = list(d.items())
+    rng.shuffle(items)
+    return dict(items)
+
+
+def _grid(rng, top=750):
+    """A threshold from the decimal grid {0, .05, ..., top} (thousandths)."""
+    return rng.choice([x for x in GRID if x <= top])
+
 
 def _gen_thr_cycles(rng, partial):
     mixed = rng.random() < 0.5
@@ -77,10 +145,10 @@ def _gen_thr_cycles(rng, partial):
         if partial and rng.random() < 0.45:
             continue
         short = (rng.random() < 0.5) if mixed else short_all
-        thr[nm if short else nm + '_threshold'] = rng.choice([0, 200, 300, 400, 500, 700])
+        thr[nm if short else nm + '_threshold'] = _grid(rng)
     if not partial or rng.random() < 0.6:
         thr['min_n_cycles'] = rng.choice([1, 2, 3])
-    return thr
+    return _shuffled(rng, thr)
 
 
 def _gen_thr_amp(rng, partial):
@@ -89,7 +157,7 @@ def _gen_thr_amp(rng, partial):
         thr['burst_fraction' if rng.random() < 0.4 else 'burst_fraction_threshold'] = rng.choice([200, 500, 1000])
     if rng.random() < 0.7:
         thr['min_n_cycles'] = rng.choice([1, 2, 3, 4])
-    return thr
+    return _shuffled(rng, thr)
 
 
 def _gen_bk(rng):
@@ -98,7 +166,7 @@ def _gen_bk(rng):
         bk['amp_threshes'] = rng.randrange(len(AMP_THRESHES))
     if rng.random() < 0.3:
         bk['min_n_cycles'] = rng.choice([1, 2, 3, 5])
-    return bk
+    return _shuffled(rng, bk)
 
 
 def _gen_args(rng):
@@ -134,11 +202,30 @@ def _expand(d):
 
 
 def _valid_reduction(rng, thr):
-    """A reduction (thousandths) that keeps every stored *_threshold inside [0, 1]."""
+    """A reduction from the decimal grid (thousandths) that keeps every stored *_threshold inside [0, 1]: thresholds and
+    reductions are decimal literals, so that the lowered threshold v - r carries binary64 residue in either direction
+    (.3 - .1 < .2, .8 - .1 > .7) as it does for a user who types such numbers."""
     vals = [v for k, v in thr.items() if k.endswith('threshold')]
     top = min(vals) if vals else 300
-    r = rng.choice([x for x in (0, 0, 50, 100, 200, top) if x <= top])
+    pos = [x for x in GRID if 0 < x <= top]
+    r = rng.choice(pos) if pos and rng.random() < 0.75 else 0
     return ['recompute', r, rng.choice(['none', 'zero']) if r == 0 else 'val']
+
+
+def _fit_id(rng, last=None):
+    """Signal id of a fit: the signal of the previous fit again (1 in 3 when there is one: a user edits a setting and
+    re-fits the same recording), else a generated signal, or (1 in 4) a ramp signal whose amp_fraction values are grid
+    decimals."""
+    if last is not None and rng.random() < 0.34:
+        return last
+    return rng.randrange(N_PLAIN) if rng.random() < 0.75 else N_PLAIN + rng.randrange(N_RAMP)
+
+
+def _load_syn(rng, thr, r=None):
+    """A `load` of a synthetic cycle table whose feature values sit exactly on / one ulp around the thresholds lowered by
+    the reduction of the recompute_edges that follows (both returned)."""
+    rec = _valid_reduction(rng, thr) if r is None else ['recompute', r, 'val']
+    return [['load_syn', _fit_id(rng), rng.randrange(10 ** 6), dict(thr), rec[1]], rec]
 
 
 def _gen_object_case(rng, maxlen):
@@ -148,20 +235,27 @@ def _gen_object_case(rng, maxlen):
     ops = []
     df_cycles = False          # the object currently holds a table produced by a consistency-method fit
     fitted = False
+    last_fit = None
+    fit_cycles = None          # method of the last FITTED table (what `load` brings back); None: no fit yet
     for _ in range(rng.randint(2, maxlen)):
         r = rng.random()
         if r < 0.33 or not ops:
-            ops.append(['fit', rng.randrange(4)])
-            fitted, df_cycles = True, not amp
-        elif r < 0.47 and df_cycles and not amp:
-            ops.append(_valid_reduction(rng, thr))
+            last_fit = _fit_id(rng, last_fit)
+            ops.append(['fit', last_fit])
+            fitted, df_cycles, fit_cycles = True, not amp, not amp
+        elif r < 0.47 and not amp and (df_cycles or r < 0.40):
+            if not df_cycles or rng.random() < 0.4:
+                ops.extend(_load_syn(rng, thr))           # load a synthetic boundary table, then recompute_edges(r)
+                fitted, df_cycles = True, True
+            else:
+                ops.append(_valid_reduction(rng, thr))
         elif r < 0.66:
             if amp:
                 k = rng.choice(['burst_fraction_threshold', 'min_n_cycles'])
-                v = rng.choice([200, 500, 1000]) if k.endswith('threshold') else rng.choice([1, 2, 3, 4, 6])
+                v = rng.choice([200, 500, 1000]) if k.endswith('threshold') else rng.choice([1, 2, 3, 4, 6, 10])
             else:
                 k = rng.choice([nm + '_threshold' for nm in CYC_NAMES] + ['min_n_cycles'])
-                v = rng.choice([0, 300, 500, 800]) if k.endswith('threshold') else rng.choice([1, 2, 3, 4])
+                v = _grid(rng, 800) if k.endswith('threshold') else rng.choice([1, 2, 3, 4])
             ops.append(['edit_thr', k, v])
             thr[k] = v
         elif r < 0.72 and amp:
@@ -182,9 +276,97 @@ def _gen_object_case(rng, maxlen):
             ops.append(['set_rs', rng.random() < 0.7])
         elif fitted:
             ops.append(['load', rng.randrange(4)])
-    ops.append(['fit', rng.randrange(4)])
+            if fit_cycles is not None:
+                df_cycles = fit_cycles                    # `load` re-loads the last fitted table, whatever was loaded since
+    ops.append(['fit', _fit_id(rng, last_fit)])
     return {'kind': 'history/' + ('amp' if args.get('amp', False) else 'cycles'), 'args': args, 'ops': ops,
             'sigseed': rng.randrange(10 ** 6)}
+
+
+def _gen_refit_case(rng):
+    """The everyday history: fit, change ONE threshold by item assignment, fit the SAME recording again (1-3 times),
+    nothing else in between; the new value is far from the old one so that the labels usually change."""
+    args = _gen_args(rng)
+    amp = args.get('amp', False)
+    thr = _expand(args['thr']) if 'thr' in args else dict(AMP_DEF if amp else CYC_DEF)
+    k0 = _fit_id(rng)
+    ops = [['fit', k0]]
+    for _ in range(rng.randint(1, 3)):
+        if amp:
+            k = rng.choice(['min_n_cycles', 'min_n_cycles', 'burst_fraction_threshold'])
+            pool = [200, 500, 1000] if k.endswith('threshold') else [1, 2, 4, 8]
+        else:
+            k = rng.choice([nm + '_threshold' for nm in CYC_NAMES] + ['min_n_cycles'])
+            pool = [0, 250, 500, 750, 900] if k.endswith('threshold') else [1, 2, 3, 5]
+        v = rng.choice([x for x in pool if x != thr.get(k)])
+        ops.append(['edit_thr', k, v])
+        thr[k] = v
+        ops.append(['fit', k0])
+    return {'kind': 'refit/' + ('amp' if amp else 'cycles'), 'args': args, 'ops': ops, 'sigseed': rng.randrange(10 ** 6)}
+
+
+def _gen_boundary_case(rng):
+    """Decision-boundary histories: complete consistency thresholds from the decimal grid (long and shorthand names mixed,
+    insertion order shuffled), a fit of a ramp signal (amp_fraction = rank / n on the decimal grid) and / or a load of a
+    synthetic boundary table, then recompute_edges(r) with r from the grid; then possibly an edit and a second round."""
+    r = rng.choice([x for x in GRID if 50 <= x <= 600])
+    args = {'thr': _boundary_thr(rng, r)}
+    if rng.random() < 0.6:
+        args['center'] = rng.random() < 0.5
+    if rng.random() < 0.3:
+        args['amp'] = False
+    if rng.random() < 0.3:
+        args['fek'] = rng.choice([0, 1, 2])
+    if rng.random() < 0.4:
+        args['rs'] = rng.random() < 0.8
+    cur = _expand(args['thr'])
+    ops = [['fit', N_PLAIN + rng.randrange(N_RAMP)]]
+    for rnd in range(rng.choice([1, 1, 2])):
+        if rnd:
+            k = rng.choice([nm + '_threshold' for nm in CYC_NAMES])
+            cur[k] = _grid(rng, 800)
+            ops.append(['edit_thr', k, cur[k]])
+            if rng.random() < 0.5:
+                ops.append(['fit', N_PLAIN + rng.randrange(N_RAMP)])
+            top = min(v for q, v in cur.items() if q.endswith('threshold'))
+            pos = [x for x in GRID if 0 < x <= top]
+            r = rng.choice(pos) if pos else 0
+        if rng.random() < 0.45:
+            ops.extend(_load_syn(rng, cur, r) if r else _load_syn(rng, cur))
+        else:
+            ops.append(['recompute', r, 'val' if r else 'zero'])
+    ops.append(['fit', _fit_id(rng)])
+    return {'kind': 'boundary/cycles', 'args': args, 'ops': ops, 'sigseed': rng.randrange(10 ** 6)}
+
+
+def _arr_id(rng):
+    return rng.randrange(N_ARR_PLAIN) if rng.random() < 0.7 else N_ARR_PLAIN + rng.randrange(N_ARR_RAMP)
+
+
+def _boundary_thr(rng, r):
+    """Complete consistency thresholds from the decimal grid, every *_threshold >= r, names mixed, order shuffled."""
+    thr = {}
+    for nm in CYC_NAMES:
+        hi = 1000 if nm == 'amp_fraction' else max(r, 650)
+        thr[nm if rng.random() < 0.4 else nm + '_threshold'] = rng.choice([x for x in GRID if r <= x <= hi])
+    thr['min_n_cycles'] = rng.choice([1, 2, 2, 3])
+    return _shuffled(rng, thr)
+
+
+def _gen_group_boundary_case(rng):
+    """Group counterpart of _gen_boundary_case: ramp rows (axis 0 / (0,1) fits), recompute_edges(r) with r from the grid."""
+    r = rng.choice([x for x in GRID if 50 <= x <= 600])
+    args = {'thr': _boundary_thr(rng, r)}
+    if rng.random() < 0.6:
+        args['center'] = rng.random() < 0.5
+    gops = []
+    if rng.random() < 0.4:                                     # a fit of another shape first
+        sh = rng.choice(['rows', 'flat', 'g3', 'g3ax0', 'g3ax1'])
+        gops.append(['gfit', _arr_id(rng), sh, rng.choice([1, 2, 3]), rng.choice([1, 2]) if sh.startswith('g3') else None])
+    sh = rng.choice(['rows', 'g3'])
+    gops.append(['gfit', N_ARR_PLAIN + rng.randrange(N_ARR_RAMP), sh, rng.choice([1, 2, 3]), rng.choice([1, 2]) if sh == 'g3' else None])
+    gops.append(['grecompute', r, 'val'])
+    return {'kind': 'group-boundary/cycles', 'args': args, 'gops': gops, 'sigseed': rng.randrange(10 ** 6)}
 
 
 def _gen_group_case(rng, maxlen):
@@ -199,7 +381,7 @@ def _gen_group_case(rng, maxlen):
             sh = rng.choice(['rows', 'rows', 'flat', 'g3', 'g3ax0', 'g3ax1'])
             n0 = rng.choice([1, 2, 3])
             n1 = rng.choice([1, 2]) if sh.startswith('g3') else None
-            gops.append(['gfit', rng.randrange(3), sh, n0, n1])
+            gops.append(['gfit', _arr_id(rng), sh, n0, n1])
             rc_ok = (not amp) and sh in ('rows', 'g3')
         elif r < 0.65 and rc_ok:
             gops.append(['g' + x if i == 0 else x for i, x in enumerate(_valid_reduction(rng, thr))])
@@ -209,7 +391,7 @@ def _gen_group_case(rng, maxlen):
                 v = rng.choice([200, 500, 1000]) if k.endswith('threshold') else rng.choice([1, 2, 3, 4])
             else:
                 k = rng.choice([nm + '_threshold' for nm in CYC_NAMES] + ['min_n_cycles'])
-                v = rng.choice([0, 300, 500, 800]) if k.endswith('threshold') else rng.choice([1, 2, 3])
+                v = _grid(rng, 800) if k.endswith('threshold') else rng.choice([1, 2, 3])
             gops.append(['gedit_thr', k, v])
             thr[k] = v
         else:
@@ -218,19 +400,61 @@ def _gen_group_case(rng, maxlen):
     return {'kind': 'group/' + ('amp' if amp else 'cycles'), 'args': args, 'gops': gops, 'sigseed': rng.randrange(10 ** 6)}
 
 
+def _gen_reduce_case(rng):
+    """The public method reduce_thresholds(r) on a freshly constructed object / group: thresholds and reductions from the
+    decimal grid, from random binary64 numbers, integers, or the documented defaults (thresholds=None); r may be None.
+    Values are kept as floats in the case (not thousandths): this stream is compared bit by bit."""
+    amp = rng.random() < 0.25
+    names = ['burst_fraction'] if amp else CYC_NAMES
+
+    def val():
+        q = rng.random()
+        if q < 0.6:
+            return rng.choice(GRID) / 1000.0
+        if q < 0.7:
+            return rng.choice([0, 1])                      # a Python int
+        if q < 0.85:
+            return rng.random()
+        return round(rng.random(), rng.choice([1, 2, 3]))
+    thr = None
+    if rng.random() < 0.85:
+        thr = {}
+        for nm in names:
+            if rng.random() < 0.85:
+                thr[nm if rng.random() < 0.4 else nm + '_threshold'] = val()
+        if rng.random() < 0.8:
+            thr['min_n_cycles'] = rng.choice([1, 2, 3, 4])
+        thr = _shuffled(rng, thr)
+    rs = []
+    for _ in range(rng.randint(2, 6)):
+        q = rng.random()
+        rs.append(None if q < 0.1 else 0 if q < 0.15 else rng.choice(GRID) / 1000.0 if q < 0.75 else
+                  rng.random() if q < 0.9 else round(rng.random(), rng.choice([1, 2])))
+    return {'kind': 'reduce/' + ('amp' if amp else 'cycles'), 'reduce': True, 'amp': amp, 'thr': thr, 'rs': rs,
+            'group': rng.random() < 0.3}
+
+
 def cases(rng, tier):
     out = []
-    n = 120 if tier == 'quick' else 1200
-    maxlen = 8 if tier == 'quick' else 20
-    for _ in range(n):
+    quick = tier == 'quick'
+    maxlen = 8 if quick else 20
+    for _ in range(120 if quick else 1200):
         out.append(_gen_object_case(rng, maxlen))
-    for _ in range(45 if tier == 'quick' else 400):
-        out.append(_gen_group_case(rng, 7 if tier == 'quick' else 14))
+    for _ in range(45 if quick else 400):
+        out.append(_gen_group_case(rng, 7 if quick else 14))
+    for _ in range(16 if quick else 160):
+        out.append(_gen_refit_case(rng))
+    for _ in range(40 if quick else 400):
+        out.append(_gen_boundary_case(rng))
+    for _ in range(12 if quick else 100):
+        out.append(_gen_group_boundary_case(rng))
+    for _ in range(40 if quick else 400):
+        out.append(_gen_reduce_case(rng))
     return out
 
 
 def stream_of(c):
-    return 'group' if 'gops' in c else 'object'
+    return 'reduce' if c.get('reduce') else 'group' if 'gops' in c else 'object'
 
 
 # ---------------------------------------------------------------------------------------------------
@@ -338,10 +562,11 @@ class _Want:
             kw['center_extrema'] = 'peak' if self.center else 'trough'
         if 'amp' in self.given:
             kw['burst_method'] = 'amp' if self.amp else 'cycles'
+        # the references get their dictionaries in sorted key order, whatever order the object under test was given
         if self.bk is not None and self.amp:
-            kw['burst_kwargs'] = copy.deepcopy(self.bk)
+            kw['burst_kwargs'] = copy.deepcopy(dict(sorted(self.bk.items())))
         if self.thr is not None:
-            kw['thresholds' if for_object else 'threshold_kwargs'] = copy.deepcopy(self.thr)
+            kw['thresholds' if for_object else 'threshold_kwargs'] = copy.deepcopy(dict(sorted(self.thr.items())))
         if self.fek is not None and FEKS[self.fek] is not None:
             kw['find_extrema_kwargs'] = copy.deepcopy(FEKS[self.fek])
         if 'rs' in self.given:
@@ -372,6 +597,85 @@ def _ctor_kwargs(args):
 # ---------------------------------------------------------------------------------------------------
 # running real objects
 
+def _syn_table(tseed, thr, r, peak):
+    """Synthetic consistency-method cycle table (5-18 rows) for `load`.  thr: the stored thresholds (thousandths, long
+    names; a missing key means the documented default of detect_bursts_cycles, which a reduction does not touch), r: the
+    reduction (thousandths) of the recompute_edges that follows.  Interior feature values are drawn from: clearly above
+    the lowered threshold, clearly below, and the BOUNDARY set {a, a +- 1 ulp, d, d +- 1 ulp} where a = v/1000 - r/1000
+    is the plain binary64 subtraction of the two decimal literals and d = (v - r)/1000 the literal of the nominal
+    difference.  Periods and flank voltages are small integers, so that the one-sided consistencies recompute_edge
+    writes into edge cycles (min / max ratios) are decimal fractions as well."""
+    import pandas as pd
+    rng = _random.Random(tseed)
+    n = rng.randint(5, 18)
+    rr = r / 1000.0
+
+    def lowered(name):
+        v = thr.get(name + '_threshold')
+        if v is None:
+            a = pipeline.CYC_DEFAULTS[name + '_threshold']
+            return a, a
+        return v / 1000.0 - rr, (v - r) / 1000.0
+
+    def draw(name):
+        a, d = lowered(name)
+        q = rng.random()
+        if q < 0.5:
+            x = rng.choice([1.0, min(1.0, a + 0.25), min(1.0, a + 0.1)])
+        elif q < 0.9:
+            c = rng.choice([a, d])
+            x = rng.choice([c, c, math.nextafter(c, 2.0), math.nextafter(c, -1.0)])
+        else:
+            x = rng.choice([0.0, a - 0.2, a / 2])
+        return min(1.0, max(0.0, x))
+    period = [rng.choice([4, 5, 8, 10, 16, 20, 25, 40, 50]) for _ in range(n)]
+    rise = [float(rng.choice([1, 2, 3, 4, 5, 6, 7, 8, 9, 10, 20])) for _ in range(n)]
+    decay = [float(rng.choice([1, 2, 3, 4, 5, 6, 7, 8, 9, 10, 20])) for _ in range(n)]
+    start = np.concatenate([[3], 3 + np.cumsum(period)]).astype(int)
+    cols = {}
+    if peak:
+        cols['sample_peak'] = start[:-1] + np.array(period) // 2
+        cols['sample_last_trough'] = start[:-1]
+        cols['sample_next_trough'] = start[1:]
+    else:
+        cols['sample_trough'] = start[:-1] + np.array(period) // 2
+        cols['sample_last_peak'] = start[:-1]
+        cols['sample_next_peak'] = start[1:]
+    cols['period'] = np.array(period, dtype=int)
+    cols['volt_decay'] = np.array(decay)
+    cols['volt_rise'] = np.array(rise)
+    cols['volt_amp'] = (np.array(decay) + np.array(rise)) / 2
+    cols['band_amp'] = np.array([rng.random() + 0.5 for _ in range(n)])
+    feats = {nm: np.array([draw(nm) for _ in range(n)]) for nm in CYC_NAMES}
+    for nm in ('amp_consistency', 'period_consistency'):
+        feats[nm][0] = feats[nm][-1] = np.nan
+    cols.update(feats)
+    lab = np.array([rng.random() < 0.55 for _ in range(n)], dtype=bool)
+    lab[0] = lab[-1] = False
+    cols['is_burst'] = lab
+    return pd.DataFrame(cols)
+
+
+def _sensitivity(before, red):
+    """Evidence only: does some feature of the table sit exactly on a lowered threshold, and would the recomputed labels
+    change if the lowered thresholds were moved by 1e-10 either way?"""
+    from bycycle.burst import recompute_edges
+    on = False
+    for k, v in red.items():
+        col = k[:-len('_threshold')]
+        if k.endswith('_threshold') and col in before.columns:
+            on = on or bool(np.any(np.asarray(before[col], dtype=float) == v))
+    flips = False
+    try:
+        ref = np.asarray(recompute_edges(before.copy(), dict(red))['is_burst'])
+        for eps in (1e-10, -1e-10):
+            alt = {k: (min(1.0, max(0.0, v + eps)) if k.endswith('threshold') else v) for k, v in red.items()}
+            flips = flips or not np.array_equal(ref, np.asarray(recompute_edges(before.copy(), alt)['is_burst']))
+    except Exception:
+        pass
+    return on, flips
+
+
 def _reference_fails_too(sig, fs, fr, want, kind):
     from bycycle.features import compute_features
     try:
@@ -384,6 +688,8 @@ def _reference_fails_too(sig, fs, fr, want, kind):
 def run_impl(c):
     import warnings
     warnings.filterwarnings('ignore')
+    if c.get('reduce'):
+        return _run_reduce(c)
     if 'gops' in c:
         return _run_group(c)
     from bycycle import Bycycle
@@ -398,6 +704,7 @@ def run_impl(c):
     problems = []
     prev_df = None
     op = None
+    sens = [0, 0, 0]                 # recomputations, with a feature exactly on a lowered threshold, label-sensitive to 1e-10
     try:
         for op in c['ops']:
             if op[0] == 'fit':
@@ -420,9 +727,13 @@ def run_impl(c):
                 before = bm.df_features.copy()
                 r = op[1] / 1000.0
                 bm.recompute_edges({'none': None, 'zero': 0, 'val': r}[op[2]])
-                ref = recompute_edges(before, want.reduced(r))
+                red = want.reduced(r)
+                ref = recompute_edges(before, dict(red))
                 if not _same(bm.df_features, ref):
-                    problems.append('recompute_edges: differs from the functional recomputation at reduced thresholds')
+                    problems.append('recompute_edges(%r): differs from the functional recomputation with thresholds %r' % (
+                        {'none': None, 'zero': 0, 'val': r}[op[2]], red))
+                on, flips = _sensitivity(before, red)
+                sens = [sens[0] + 1, sens[1] + on, sens[2] + flips]
             elif op[0] == 'edit_thr':
                 v = op[2] / 1000.0 if op[1] != 'min_n_cycles' else op[2]
                 bm.thresholds[op[1]] = v
@@ -469,7 +780,16 @@ def run_impl(c):
                     problems.append('load: df_features is not the loaded table')
                 if not np.array_equal(bm.sig, sig):
                     problems.append('load: sig is not the loaded signal')
-            if op[0] in ('fit', 'recompute', 'load'):
+            elif op[0] == 'load_syn':
+                sig, fs, fr = _sig(c['sigseed'], op[1])
+                tbl = _syn_table(op[2], op[3], op[4], want.center)
+                snapshot = tbl.copy()
+                bm.load(tbl, sig, fs, fr)
+                if not _same(bm.df_features, snapshot):
+                    problems.append('load: df_features is not the loaded table')
+                if not np.array_equal(bm.sig, sig):
+                    problems.append('load: sig is not the loaded signal')
+            if op[0] in ('fit', 'recompute', 'load', 'load_syn'):
                 p = _attr_problem(bm)
                 if p:
                     problems.append('after %s: %s' % (op[0], p))
@@ -479,7 +799,25 @@ def run_impl(c):
     out['problems'] = problems[:3]
     out['user_thr'] = _enc_thr(want.user_thr)
     out['user_bk'] = _enc_bk(want.user_bk)
+    out['sens'] = sens
     return out
+
+
+def _run_reduce(c):
+    """reduce_thresholds(r) of a fresh object, for every r of the case; model comparison only (bit by bit)."""
+    from bycycle import Bycycle, BycycleGroup
+    kw = {'burst_method': 'amp'} if c['amp'] else {}
+    if c['thr'] is not None:
+        kw['thresholds'] = dict(c['thr'])
+    try:
+        bm = (BycycleGroup if c['group'] else Bycycle)(**kw)
+        res = []
+        for r in c['rs']:
+            d = bm.reduce_thresholds(r)
+            res.append({str(k): (float(v) if isinstance(v, (int, float, np.integer, np.floating)) else float('nan')) for k, v in d.items()})
+    except Exception as e:
+        return {'reduce_err': exc_kind(e), 'msg': str(e)[:140]}
+    return {'reduced': res}
 
 
 def _flat(x, three_d):
@@ -518,6 +856,7 @@ def _run_group(c):
     problems = []
     arr, three_d, arr_id = None, False, -1
     op = None
+    sens = [0, 0, 0]
     try:
         for op in c['gops']:
             if op[0] == 'gfit':
@@ -542,7 +881,11 @@ def _run_group(c):
                 after = _flat(bg.df_features, three_d)
                 red = want.reduced(r)
                 if len(after) != len(before) or not all(_same(x, recompute_edges(y, dict(red))) for x, y in zip(after, before)):
-                    problems.append('group recompute_edges: a table differs from the functional recomputation at reduced thresholds')
+                    problems.append('group recompute_edges(%r): a table differs from the functional recomputation with thresholds %r'
+                                    % ({'none': None, 'zero': 0, 'val': r}[op[2]], red))
+                for y in before:
+                    on, flips = _sensitivity(y, red)
+                    sens = [sens[0] + 1, sens[1] + on, sens[2] + flips]
             elif op[0] == 'gedit_thr':
                 v = op[2] / 1000.0 if op[1] != 'min_n_cycles' else op[2]
                 bg.thresholds[op[1]] = v
@@ -568,22 +911,29 @@ def _run_group(c):
     # model comparison only: which signal every model holds, whether it holds the group's table OBJECT, and the group's settings
     sig_ids, same_obj, current = [], [], []
     if arr is not None:
-        models, dfs = _flat(bg.models, three_d), _flat(bg.df_features, three_d)
+        try:
+            models, dfs = _flat(bg.models, three_d), _flat(bg.df_features, three_d)
+        except TypeError:                  # containers that are not position-wise (already an oracle failure above)
+            models, dfs = [], []
         flat = arr.reshape(-1, arr.shape[-1])
         for p, m in enumerate(models):
+            if not hasattr(m, 'sig') or not hasattr(m, 'thresholds'):
+                sig_ids.append(-1), same_obj.append(False), current.append(False)
+                continue
             hit = [q for q in range(len(flat)) if np.array_equal(np.asarray(m.sig), flat[q])]
             sig_ids.append(arr_id * 4096 + (p if p in hit else hit[0]) if hit else -1)
             same_obj.append(p < len(dfs) and m.df_features is dfs[p])
             current.append(_obs(m) == _obs(bg))
     out['sig_ids'], out['same_obj'], out['current'] = sig_ids, same_obj, current
+    out['sens'] = sens
     return out
 
 
 # ---------------------------------------------------------------------------------------------------
 
 def oracle(c, o):
-    if 'skip' in o:
-        return None
+    if 'skip' in o or c.get('reduce'):
+        return None             # reduce_thresholds alone: model comparison only (the property speaks of recompute_edges)
     if o.get('problems'):
         return o['problems'][0]
     if 'err' in o:
@@ -599,6 +949,8 @@ def oracle(c, o):
 
 
 def nontrivial(c, o):
+    if c.get('reduce'):
+        return 'reduced' in o and any(r for r in c['rs'])
     if 'thr' not in o:
         return False
     if 'gops' in c:
@@ -610,8 +962,15 @@ def nontrivial(c, o):
 
 def kind_of(c, o):
     k = c['kind']
+    if c.get('reduce'):
+        return k + ('/default-thr' if c['thr'] is None else '') + ('/err' if 'reduce_err' in o else '')
     if 'thr' not in c['args']:
         k += '/default-thr'
+    sens = o.get('sens') or [0, 0, 0]
+    if sens[2]:
+        k += '/labels-depend-on-last-bits-of-lowered-threshold'
+    elif sens[1]:
+        k += '/feature-on-lowered-threshold'
     return k + ('/skip' if 'skip' in o else '/err' if 'err' in o else '')
 
 
@@ -638,9 +997,20 @@ _ERR = {'Type': 'EType', 'Value': 'EValue', 'Key': 'EKey', 'Index': 'EIndex'}
 _SHAPE = {'rows': 'G2Rows %d', 'flat': 'G2Flat %d', 'g3': 'G3 %d %d', 'g3ax0': 'G3Ax0 %d %d', 'g3ax1': 'G3Ax1 %d %d'}
 
 
+def _fdict(d):
+    return coqio.lst(['("%s", %s%%float)' % (k, coqio.fl(v)) for k, v in d.items()]) if d else 'nil'
+
+
 def coq_case(c, o):
     if 'skip' in o:
         return None
+    if c.get('reduce'):
+        thr = None if c['thr'] is None else {k: float(v) for k, v in _expand(c['thr']).items()}
+        inp = '(%s, %s, %s)' % (coqio.B(c['amp']), _opt(thr, _fdict),
+                                coqio.lst([_opt(r, lambda x: '%s%%float' % coqio.fl(x)) for r in c['rs']]))
+        if 'reduce_err' in o:
+            return inp, '(Err %s)' % _ERR.get(o['reduce_err'], 'EOther')
+        return inp, '(Ok %s)' % coqio.lst([_fdict(d) for d in o['reduced']])
     ops = []
     if 'gops' in c:
         for op in c['gops']:
@@ -666,6 +1036,8 @@ def coq_case(c, o):
             ops.append('ORecompute %d' % op[1])
         elif op[0] == 'load':
             ops.append('OLoad 0 %d' % op[1])
+        elif op[0] == 'load_syn':
+            ops.append('OLoad 1 %d' % op[1])
         elif op[0] == 'edit_thr':
             ops.append('OEditThr "%s" %d' % (op[1], op[2]))
         elif op[0] == 'edit_bk':
